@@ -14,6 +14,34 @@ from .stdmodel import StrBuf, tmp_ref
 from . import yamlgen
 
 
+def _nest(levels, inner_lines, inner_value_builder):
+    """`levels` nested single-key mappings (2 spaces each) around `inner_lines`."""
+    lines = []
+    for i in range(levels):
+        lines.append("  " * i + "k%d:" % i)
+    pad = "  " * levels
+    lines += [pad + x if x else "" for x in inner_lines]
+    v = inner_value_builder
+    for i in reversed(range(levels)):
+        v = {"k%d" % i: v}
+    return "\n".join(lines) + "\n", v
+
+
+def _deep_named():
+    """Block scalars at the indentation columns where the SIMD block-scalar kernels change
+    regime (16- and 32-byte vectors): key at column 14..18 / 30..34 followed by a sibling whose
+    first bytes hold no blank, and content lines indented past columns 16 and 32."""
+    out = []
+    for levels in (7, 8, 9, 15, 16, 17):
+        text, v = _nest(levels, ["script: |", "  line one", "  line two", "terminationMessagePath: /dev/termination-log", "other: 1"],
+                        {"script": "line one\nline two\n", "terminationMessagePath": "/dev/termination-log", "other": 1})
+        out.append(("block-scalar-then-sibling-col%d" % (2 * levels), text + "tail: " + "x" * 40 + "\n", dict(list(v.items()) + [("tail", "x" * 40)])))
+        text, v = _nest(levels, ["folded: >-", "  aaa bbb", "  ccc", "", "  ddd", "next_key_without_blank_bytes_here: [1, 2]"],
+                        {"folded": "aaa bbb ccc\nddd", "next_key_without_blank_bytes_here": [1, 2]})
+        out.append(("folded-scalar-then-sibling-col%d" % (2 * levels), text + "tail: " + "y" * 40 + "\n", dict(list(v.items()) + [("tail", "y" * 40)])))
+    return out
+
+
 # named documents: shapes that the random family keeps out (one root cause, one key) or seldom reaches
 NAMED = [
     ("comment-with-colon-after-plain-seq-item", "- a #key: value\n", ["a"]),
@@ -29,7 +57,7 @@ NAMED = [
     ("nested-literal-header-on-next-line", "k:\n  |-\n   a: b\n", {"k": "a: b"}),
     ("seq-literal-with-colon", "- |-\n  a: b\n- >-\n  c: d\n", ["a: b", "c: d"]),
     ("root-literal-then-document", "|-\n  a: b\n---\nx: 1\n", ["a: b", {"x": 1}]),
-]
+] + _deep_named()
 
 
 def same(a, b):
